@@ -202,6 +202,8 @@ impl Segment {
     }
 
     pub async fn initialize_writing(&mut self) -> Result<(), IggyError> {
+        #[cfg(feature = "verif")]
+        let _verif = crate::verif::fs_event_on_drop("segment_open", &self.log_path);
         // TODO(hubcio): consider splitting enforce_fsync for index/log to separate entries in config
         let log_fsync = self.config.partition.enforce_fsync;
         let index_fsync = self.config.partition.enforce_fsync;
@@ -286,6 +288,8 @@ impl Segment {
     pub async fn shutdown_writing(&mut self) {
         if let Some(log_writer) = self.log_writer.take() {
             tokio::spawn(async move {
+                #[cfg(feature = "verif")]
+                crate::verif::sched_point("segment_close_task").await;
                 let _ = log_writer.fsync().await;
                 log_writer.shutdown_persister_task().await;
             });
@@ -307,6 +311,8 @@ impl Segment {
     }
 
     pub async fn delete(&mut self) -> Result<(), IggyError> {
+        #[cfg(feature = "verif")]
+        let _verif = crate::verif::fs_event_on_drop("segment_delete", &self.log_path);
         let segment_size = self.size_bytes;
         let segment_count_of_messages = self.get_messages_count();
         info!(
